@@ -49,6 +49,33 @@ let make_same2 (d0 : dag) (d1 : dag) (symmap : (expr * expr) list) : int -> int 
   in
   same
 
+(* debug names of non-symbol nodes: (signames (k "name") ..) next to the nodes of a dumped system *)
+let signames_of (fields : Sexp.t list) (d : dag) : (expr * char list) list =
+  match Sexp.field_opt "signames" fields with
+  | Some l -> List.filter_map (function Sexp.List [k; n] -> Some (d.nodes.(idx k), big_coqstr (Sexp.atom n)) | _ -> None) l
+  | None -> []
+
+(* token lines of a text written by the implementation (the comment line has no tokens) *)
+let text_lines (t : string) : char list list list =
+  List.filter (fun l -> l <> []) (List.map tokenize (split_lines (big_coqstr t)))
+
+let show_line (l : char list list) : string = String.concat " " (List.map big_ocamlstr l)
+
+(* first difference between the model writer's lines and the implementation's *)
+let text_diff (model : char list list list) (impl : char list list list) : string option =
+  let rec go k = function
+    | [], [] -> None
+    | a :: l, b :: m -> if a = b then go (k + 1) (l, m) else Some (Printf.sprintf "line %d: model `%s` / impl `%s`" k (show_line a) (show_line b))
+    | a :: _, [] -> Some (Printf.sprintf "line %d: model `%s` / impl has no more lines" k (show_line a))
+    | [], b :: _ -> Some (Printf.sprintf "line %d: model has no more lines / impl `%s`" k (show_line b))
+  in
+  go 1 (model, impl)
+
+(* names of the inputs / states / outputs of a model system *)
+let sys_names (sy : sys) : string list * string list * string list =
+  let nm e = big_ocamlstr (sym_name e) in
+  (List.map nm sy.s_inputs, List.map (fun s -> nm s.st_sym) sy.s_states, List.map (fun (n, _) -> big_ocamlstr n) sy.s_outputs)
+
 let names_of (x : Sexp.t) : (string list * string list * string list) option =
   match x with
   | Sexp.List fs ->
@@ -159,14 +186,31 @@ let handle (x : Sexp.t) : string =
                      List.map (fun (sy, _, _) -> nm sy) nonplain0,
                      List.map (fun (n, _) -> big_ocamlstr n) s0.i_outputs)
              end else None in
-           let cycles = [ (names0, names_of (Sexp.field1 "names1" fs), "first");
-                          (names_of (Sexp.field1 "names1" fs), (try names_of (Sexp.field1 "names2" fs) with _ -> None), "second") ] in
-           List.iter (fun (na, nb, _) ->
+           (* The writer WITH its name bookkeeping (Model.serialize_named) is run on the system of each cycle: its lines must be
+              the implementation's text, and reading them with the model reader predicts which explicit names the UNMODIFIED
+              writer/reader pair preserves.  An explicit name the pair preserves must survive in the implementation; a name the
+              pair itself loses is excused only under the key of its recorded class. *)
+           let text_problem = ref None in
+           let predicted (asys : sys) (nmA : (expr * char list) list) (impl_text : string option) (what : string) =
+             if not small then None
+             else match serialize_named asys nmA with
+               | POk lines ->
+                   (match impl_text with
+                    | Some t -> (match text_diff lines (text_lines t) with
+                        | Some w -> if !text_problem = None then text_problem := Some (what ^ " text, " ^ w)
+                        | None -> ())
+                    | None -> ());
+                   (match parse_lines_v code_variant dbg lines with POk b -> Some (sys_names b) | _ -> None)
+               | _ -> None in
+           let text_of k = match Sexp.field_opt k fs with Some [t] -> Some (Sexp.atom t) | _ -> None in
+           let pred1 = predicted msys0 (signames_of (Sexp.field "sys0" fs) d0) (text_of "text1") "first" in
+           let pred2 = predicted (sys_of_isys d1 s1) (signames_of f1 d1) (text_of "text2") "second" in
+           let cycles = [ (names0, names_of (Sexp.field1 "names1" fs), (if parsed0 then pred1 else None), "first");
+                          (names_of (Sexp.field1 "names1" fs), (try names_of (Sexp.field1 "names2" fs) with _ -> None), pred2, "second") ] in
+           List.iter (fun (na, nb, pred, _) ->
            (match na, nb with
             | Some (i1, st1, o1), Some (i2, st2, o2) ->
-                (* classify the first name that changed *)
                 let drift a b =
-                  (* one name is the other plus a uniquifying _<digits> suffix *)
                   let is_suffix_of x y =
                     String.length y > String.length x && String.sub y 0 (String.length x) = x &&
                     (let rest = String.sub y (String.length x) (String.length y - String.length x) in
@@ -175,30 +219,32 @@ let handle (x : Sexp.t) : string =
                   is_suffix_of a b || is_suffix_of b a in
                 let roots = List.map snd s1.i_outputs @ s1.i_bads @ s1.i_constraints in
                 (* names the reader generated itself are not explicit names: they may be renumbered *)
-                let is_autogen a =
-                  List.exists (fun p ->
-                      a = p ||
-                      (String.length a > String.length p + 1 && String.sub a 0 (String.length p + 1) = p ^ "_" &&
-                       (let r = String.sub a (String.length p + 1) (String.length a - String.length p - 1) in
-                        r <> "" && String.for_all (fun c -> c >= '0' && c <= '9') r)))
-                    ["_input"; "_state"; "_output"; "_bad"; "_constraint"] in
-                let first_diff l1 l2 = let rec go k = function
-                    | a :: l, b :: m -> if a <> b && not (is_autogen a) then Some (k, a, b) else go (k + 1) (l, m)
+                let is_autogen a = is_autogen_name (big_coqstr a) in
+                (* first explicit name that did not survive; [excused] = the unmodified pair loses it as well *)
+                let first_diff l1 l2 (pl : string list option) = let rec go k = function
+                    | a :: l, b :: m ->
+                        if a <> b && not (is_autogen a) then
+                          Some (k, a, b, (match pl with Some p when List.length p = List.length l2 -> List.nth p k <> a | Some _ -> false | None -> true))
+                        else go (k + 1) (l, m)
                     | _ -> None in go 0 (l1, l2) in
+                let (pi, ps, po) = match pred with Some (a, b, c) -> (Some a, Some b, Some c) | None -> (None, None, None) in
                 if List.length i1 <> List.length i2 || List.length st1 <> List.length st2 || List.length o1 <> List.length o2 then note "names:count"
                 else begin
-                  (match first_diff i1 i2 with
-                   | Some (k, a, b) ->
+                  (match first_diff i1 i2 pi with
+                   | Some (_, _, _, false) -> note "names:lost:input"
+                   | Some (k, a, b, true) ->
                        let sym = List.nth s1.i_inputs k in
                        if List.mem sym roots then note "names:inputs:referenced-by-label"
                        else if String.contains a '$' then note "names:inputs:dollar-cleanup"
                        else if drift a b then note "names:inputs:suffix-drift" else note "names:inputs:other"
                    | None -> ());
-                  (match first_diff st1 st2 with
-                   | Some (_, a, b) -> if String.contains a '$' then note "names:states:dollar-cleanup" else if drift a b then note "names:states:suffix-drift" else note "names:states:other"
+                  (match first_diff st1 st2 ps with
+                   | Some (_, _, _, false) -> note "names:lost:state"
+                   | Some (_, a, b, true) -> if String.contains a '$' then note "names:states:dollar-cleanup" else if drift a b then note "names:states:suffix-drift" else note "names:states:other"
                    | None -> ());
-                  (match first_diff o1 o2 with
-                   | Some (_, a, b) -> if drift a b then note "names:outputs:suffix-drift" else note "names:outputs:other"
+                  (match first_diff o1 o2 po with
+                   | Some (_, _, _, false) -> note "names:lost:output"
+                   | Some (_, a, b, true) -> if drift a b then note "names:outputs:suffix-drift" else note "names:outputs:other"
                    | None -> ())
                 end
             | Some _, None -> if na <> names0 then note "second-cycle-failed"
@@ -228,9 +274,12 @@ let handle (x : Sexp.t) : string =
             | Some "skip", None -> Registry.result ~id ~status:"skip" ~key:"too-large-to-evaluate" ()
             | Some k, _ when k <> "skip" -> Registry.result ~id ~status:"fail" ~key:k ~detail:"read(write(sys)) differs from sys" ()
             | _, Some w -> Registry.result ~id ~status:"diff" ~key:"model" ~detail:w ()
-            | _, None -> Registry.result ~id ~status:"ok" ~key:(if small then "ok" else "ok-impl-only") ())
+            | _, None ->
+                (match !text_problem with
+                 | Some w -> Registry.result ~id ~status:"diff" ~key:"writer-text" ~detail:w ()
+                 | None -> Registry.result ~id ~status:"ok" ~key:(if small then "ok" else "ok-impl-only") ()))
        | Sexp.List (Sexp.Atom "err" :: _) -> Registry.result ~id ~status:"fail" ~key:"reparse-rejected" ~detail:"parse_str reports errors on the writer's own output" ()
-       | Sexp.List (Sexp.Atom "panic" :: loc :: _) -> Registry.result ~id ~status:"fail" ~key:("reparse-panic:" ^ Sexp.atom loc) ()
+       | Sexp.List (Sexp.Atom "panic" :: loc :: _) -> Registry.result ~id ~status:"fail" ~key:"reparse-panic" ~detail:("parse_str panics on the writer's own output at " ^ Sexp.atom loc) ()
        | _ -> raise (Sexp.Parse_error "sys1"))
 
 let () = Registry.register "C09" handle
